@@ -7,6 +7,7 @@ import (
 	"io"
 	"math"
 	"strconv"
+	"unicode/utf8"
 )
 
 // CheckJSONDenotes verifies that data is a syntactically valid JSON array with one
@@ -15,6 +16,10 @@ import (
 // float64, NaN and null strings as null, strings equal to the cell with every invalid
 // UTF-8 byte replaced by U+FFFD. It returns "" when everything agrees.
 func CheckJSONDenotes(data []byte, tab Table) string {
+	if !utf8.Valid(data) {
+		// invalid bytes of cells and names are to be escaped (encoding/json itself would read them leniently)
+		return fmt.Sprintf("ToJSON output is not valid UTF-8: %q", clip(string(data), 400))
+	}
 	if !json.Valid(data) {
 		return fmt.Sprintf("ToJSON output is not valid JSON: %q", clip(string(data), 400))
 	}
